@@ -1,6 +1,192 @@
-(* C07 — property theorems (placeholder while the proofs are being written) *)
-From Coq Require Import ZArith List.
-From GeosV Require Import Lib.KernelDefs.
+(* C07 — property theorems only. Each is closed by `exact <lemma>` and followed by Print Assumptions.
+   Models: Lib/KernelDefs.v (grid kernel over Z, code-shaped), C07/CCWDefs.v (isCCW), generated units Gen/K_*.v.
+   Proofs: Lib/Kernel.v, KernelSeg.v, KernelRing.v, KernelPoly.v, C07/GenTie.v, C07/FloatLink.v, C07/CCWProofs.v. *)
+From Coq Require Import ZArith List Bool Floats.SpecFloat.
+From GeosV.Lib Require Import KernelDefs Kernel KernelSeg KernelRing KernelPoly.
+From GeosV.C07 Require Import CCWDefs CCWProofs GenTie FloatLink.
+From GeosV.Lib Require GenPreludeZ GenPreludeF.
+From GeosV.C07 Require PreludeLI.
+From GeosV.Gen Require K_countSegment K_getLocation K_envPtZ K_envSegZ K_collinearZ K_intersectZ K_filterF K_orientationIndexF.
+Import ListNotations.
 Local Open Scope Z_scope.
-Example ex_orient : orient (0,0) (4,0) (1,1) = 1.
-Proof. reflexivity. Qed.
+
+(* ================================================================== orientation index = exact sign of the determinant *)
+(* laws of the specification orient = sgn det *)
+Theorem C07_orient_antisym : forall a b c, orient b a c = - orient a b c.
+Proof. exact orient_antisym. Qed.
+Print Assumptions C07_orient_antisym.
+Theorem C07_orient_cyclic : forall a b c, orient b c a = orient a b c.
+Proof. exact orient_cyclic. Qed.
+Print Assumptions C07_orient_cyclic.
+Theorem C07_orient_translate : forall t a b c, orient (padd a t) (padd b t) (padd c t) = orient a b c.
+Proof. exact orient_translate. Qed.
+Print Assumptions C07_orient_translate.
+Theorem C07_orient_scale : forall k a b c, 0 < k -> orient (pscale k a) (pscale k b) (pscale k c) = orient a b c.
+Proof. exact orient_scale. Qed.
+Print Assumptions C07_orient_scale.
+Theorem C07_orient_reflect : forall a b c, orient (pflipx a) (pflipx b) (pflipx c) = - orient a b c.
+Proof. exact orient_flipx. Qed.
+Print Assumptions C07_orient_reflect.
+
+(* the floating-point filter, as GENERATED from CGAlgorithmsDD::orientationIndexFilter and read at binary64
+   (SpecFloat + Flocq): on grid inputs (integers of magnitude <= 2^25) every operation is exact, so an answer other
+   than FAILURE (2) is the exact sign of the determinant *)
+Theorem C07_filter_sound_grid : forall ax ay bx by_ cx cy : Z,
+  Z.abs ax <= 2^25 -> Z.abs ay <= 2^25 -> Z.abs bx <= 2^25 -> Z.abs by_ <= 2^25 -> Z.abs cx <= 2^25 -> Z.abs cy <= 2^25 ->
+  let r := K_filterF.c_orientationIndexFilter_6 (GenPreludeF.ofZ ax) (GenPreludeF.ofZ ay) (GenPreludeF.ofZ bx)
+                                                (GenPreludeF.ofZ by_) (GenPreludeF.ofZ cx) (GenPreludeF.ofZ cy) in
+  r = 2 \/ r = Z.sgn ((ax - cx) * (by_ - cy) - (ay - cy) * (bx - cx)).
+Proof. exact filter_sound_grid. Qed.
+Print Assumptions C07_filter_sound_grid.
+(* for ALL binary64 inputs (no range restriction) the generated filter is antisymmetric under swapping the first two points *)
+Theorem C07_filter_antisym_b64 : forall pax pay pbx pby pcx pcy : spec_float,
+  K_filterF.c_orientationIndexFilter_6 pbx pby pax pay pcx pcy =
+  (let r := K_filterF.c_orientationIndexFilter_6 pax pay pbx pby pcx pcy in if r =? 2 then 2 else - r).
+Proof. exact filter_antisym. Qed.
+Print Assumptions C07_filter_antisym_b64.
+(* FULL STATEMENT NOT PROVED (the double-double fall-back):  on the same inputs
+     K_orientationIndexF.g_orientationIndexF (ofZ p1x) (ofZ p1y) (ofZ p2x) (ofZ p2y) (ofZ qx) (ofZ qy) = orient (p1x,p1y) (p2x,p2y) (qx,qy).
+   Proved: the filter half above. Missing: exactness of DD::selfAdd / selfMultiply (TwoSum, Dekker) on these inputs.
+   Covered instead by executing the generated units bit for bit beside the implementation and against the exact sign
+   on det in {0,+-1,+-2,+-3} triples up to 2^25 * 2^k (props/C07.py, streams orient / orient-bits). *)
+Theorem C07_orientationIndex_grid_partial : forall ax ay bx by_ cx cy : Z,
+  Z.abs ax <= 2^25 -> Z.abs ay <= 2^25 -> Z.abs bx <= 2^25 -> Z.abs by_ <= 2^25 -> Z.abs cx <= 2^25 -> Z.abs cy <= 2^25 ->
+  let r := K_filterF.c_orientationIndexFilter_6 (GenPreludeF.ofZ ax) (GenPreludeF.ofZ ay) (GenPreludeF.ofZ bx)
+                                                (GenPreludeF.ofZ by_) (GenPreludeF.ofZ cx) (GenPreludeF.ofZ cy) in
+  r <> 2 -> r = orient (ax, ay) (bx, by_) (cx, cy).
+Proof. exact filter_orient_grid. Qed.
+Print Assumptions C07_orientationIndex_grid_partial.
+
+(* ================================================================== point in ring *)
+(* PointLocation::isOnSegment decides membership in the closed segment *)
+Theorem C07_on_segment_iff : forall p a b, on_segment p a b = true <-> pt_on p a b.
+Proof. exact on_segment_iff. Qed.
+Print Assumptions C07_on_segment_iff.
+
+(* the code-level ray-crossing counter computes the specification on every closed vertex sequence:
+   BOUNDARY iff the point is on some segment, otherwise even-odd over the segments crossing the open right ray *)
+Theorem C07_rcc_spec : forall p ring, closed ring -> locate_ring p ring = locate_spec p (segs ring).
+Proof. exact locate_ring_spec. Qed.
+Print Assumptions C07_rcc_spec.
+Theorem C07_rcc_boundary_iff : forall p ring, closed ring ->
+  (locate_ring p ring = Boundary <-> exists a b, In (a, b) (segs ring) /\ pt_on p a b).
+Proof. exact rcc_boundary_iff. Qed.
+Print Assumptions C07_rcc_boundary_iff.
+Theorem C07_rcc_crossing_spec : forall p ring, closed ring -> locate_ring p ring <> Boundary ->
+  (locate_ring p ring = Interior <-> Z.odd (count_if (crosses_right p) (segs ring)) = true).
+Proof. exact rcc_crossing_spec. Qed.
+Print Assumptions C07_rcc_crossing_spec.
+(* even-odd location is well defined: for a point off a closed ring the right ray and the left ray give the same parity *)
+Theorem C07_rcc_left_right : forall p ring, closed ring -> existsb (onseg p) (segs ring) = false ->
+  Z.odd (count_if (crosses_right p) (segs ring)) = Z.odd (count_if (crosses_left p) (segs ring)).
+Proof. exact rcc_left_right. Qed.
+Print Assumptions C07_rcc_left_right.
+(* invariance under ring reversal, rotation of the start vertex, translation, reflection *)
+Theorem C07_locate_ring_rev : forall p ring, closed ring -> locate_ring p (rev ring) = locate_ring p ring.
+Proof. exact locate_ring_rev. Qed.
+Print Assumptions C07_locate_ring_rev.
+Theorem C07_locate_ring_rotate : forall p ring, closed ring -> locate_ring p (ring_rotate ring) = locate_ring p ring.
+Proof. exact locate_ring_rotate. Qed.
+Print Assumptions C07_locate_ring_rotate.
+Theorem C07_locate_ring_translate : forall t p ring, locate_ring (padd p t) (map (fun v => padd v t) ring) = locate_ring p ring.
+Proof. exact locate_ring_translate. Qed.
+Print Assumptions C07_locate_ring_translate.
+Theorem C07_locate_ring_reflect : forall p ring, closed ring -> locate_ring (pflipx p) (map pflipx ring) = locate_ring p ring.
+Proof. exact locate_ring_flipx. Qed.
+Print Assumptions C07_locate_ring_reflect.
+
+(* polygons: the envelope short-cuts of SimplePointInAreaLocator do not change the answer; shell-minus-holes equals the
+   even-odd count over the segments of all rings (IndexedPointInAreaLocator) when holes lie in the shell and do not overlap at p *)
+Theorem C07_locate_polygon_env : forall p shell holes, closed shell -> Forall closed holes ->
+  locate_polygon_env p shell holes = locate_polygon p shell holes.
+Proof. exact locate_polygon_env_eq. Qed.
+Print Assumptions C07_locate_polygon_env.
+Theorem C07_locate_polygon_indexed : forall p shell holes, closed shell -> Forall closed holes ->
+  (forall h, In h holes -> locate_ring p h <> Exterior -> locate_ring p shell = Interior) ->
+  (length (filter (nonext p) holes) <= 1)%nat ->
+  locate_segs p (polygon_segs shell holes) = locate_polygon p shell holes.
+Proof. exact locate_segs_polygon. Qed.
+Print Assumptions C07_locate_polygon_indexed.
+
+(* ================================================================== segment / segment *)
+(* the three-way classification of LineIntersector::computeIntersect is exact:
+   NO  => no common point;  POINT pr x => x is THE common point, pr <=> x is not an endpoint;
+   COLLINEAR a b => the common part is exactly segment ab (a <> b for non-degenerate input segments) *)
+Theorem C07_segint_sound : forall p1 p2 q1 q2,
+  match seg_class p1 p2 q1 q2 with
+  | SegNone => forall p, ~ common p p1 p2 q1 q2
+  | SegPoint pr x => 0 < qw x /\ (forall p, common p p1 p2 q1 q2 <-> 0 < qw p /\ qeq p x) /\ (pr = true <-> ~ is_endpoint x p1 p2 q1 q2)
+  | SegCollinear a b => (forall p, common p p1 p2 q1 q2 <-> qon p a b) /\ (p1 <> p2 -> q1 <> q2 -> a <> b)
+  end.
+Proof. exact seg_class_spec. Qed.
+Print Assumptions C07_segint_sound.
+Theorem C07_segint_complete : forall p1 p2 q1 q2, seg_class p1 p2 q1 q2 = SegNone <-> (forall p, ~ common p p1 p2 q1 q2).
+Proof. exact segint_complete. Qed.
+Print Assumptions C07_segint_complete.
+(* "p lies on segment ab": the parametric definition used above and the box-and-determinant test coincide *)
+Theorem C07_qon_iff_box : forall p a b, qon p a b <-> qonb p a b = true.
+Proof. exact qon_iff_qonb. Qed.
+Print Assumptions C07_qon_iff_box.
+
+(* ================================================================== ring orientation *)
+(* FULL STATEMENT NOT PROVED:  for every simple closed ring with area2 ring <> 0,  is_ccw ring = ring_ccw ring
+   (is_ccw = code-level model of Orientation::isCCW, ring_ccw = sign of the shoelace area).  Proved: the laws of the
+   specification below; the equality itself is tested on generated simple rings against the implementation and the model. *)
+Theorem C07_isccw_partial : forall ring, area2 ring <> 0 -> ring_ccw (rev ring) = negb (ring_ccw ring).
+Proof. exact ring_ccw_rev. Qed.
+Print Assumptions C07_isccw_partial.
+Theorem C07_area2_rotate : forall ring, closed ring -> area2 (ring_rotate ring) = area2 ring.
+Proof. exact area2_rotate. Qed.
+Print Assumptions C07_area2_rotate.
+Theorem C07_area2_translate : forall t ring, closed ring -> area2 (map (fun v => padd v t) ring) = area2 ring.
+Proof. exact area2_translate. Qed.
+Print Assumptions C07_area2_translate.
+
+(* ================================================================== tie G: generated definitions = models *)
+Theorem C07_gen_countSegment : forall p a b r,
+  K_countSegment.g_countSegment (Z_side.st_of p r) a b = Z_side.st_of p (count_segment p a b r).
+Proof. exact Z_side.gen_countSegment_eq. Qed.
+Print Assumptions C07_gen_countSegment.
+Theorem C07_gen_getLocation : forall p r, K_getLocation.g_getLocation (Z_side.st_of p r) = loc_code (rcc_location r).
+Proof. exact Z_side.gen_getLocation_eq. Qed.
+Print Assumptions C07_gen_getLocation.
+Theorem C07_gen_envPt : forall p1 p2 q, K_envPtZ.g_envPtZ p1 p2 q = env_pt p1 p2 q.
+Proof. exact Z_side.gen_envPt_eq. Qed.
+Print Assumptions C07_gen_envPt.
+Theorem C07_gen_envSeg : forall p1 p2 q1 q2, K_envSegZ.g_envSegZ p1 p2 q1 q2 = env_seg p1 p2 q1 q2.
+Proof. exact Z_side.gen_envSeg_eq. Qed.
+Print Assumptions C07_gen_envSeg.
+Theorem C07_gen_computeIntersect : forall st p1 p2 q1 q2,
+  PreludeLI.li_result (K_intersectZ.g_intersectZ st (q_of_pt p1) (q_of_pt p2) (q_of_pt q1) (q_of_pt q2)) = seg_class p1 p2 q1 q2.
+Proof. exact LI_side.gen_intersect_eq. Qed.
+Print Assumptions C07_gen_computeIntersect.
+
+(* ================================================================== non-vacuity: concrete instances *)
+Definition sq : list pt := [(0,0); (4,0); (4,4); (0,4); (0,0)].
+Example ex_closed : closed sq. Proof. reflexivity. Qed.
+Example ex_ring_locations :
+  map (fun p => locate_ring p sq) [(2,2); (4,2); (4,4); (5,2); (2,0); (0,0); (-1,4); (2,4)] =
+  [Interior; Boundary; Boundary; Exterior; Boundary; Boundary; Exterior; Boundary].
+Proof. vm_compute. reflexivity. Qed.
+(* vertex and horizontal edge exactly on the ray *)
+Example ex_ray_through_vertex : locate_ring (0,2) [(1,0); (3,2); (1,4); (5,4); (5,0); (1,0)] = Exterior /\
+                                locate_ring (4,2) [(1,0); (3,2); (1,4); (5,4); (5,0); (1,0)] = Interior /\
+                                locate_ring (2,4) [(1,0); (3,2); (1,4); (5,4); (5,0); (1,0)] = Boundary.
+Proof. vm_compute. repeat split. Qed.
+Example ex_segments :
+  seg_class (0,0) (4,4) (0,4) (4,0) = SegPoint true (mkq 64 64 32) /\      (* proper crossing at (2,2) *)
+  seg_class (0,0) (4,4) (4,4) (6,0) = SegPoint false (mkq 4 4 1) /\        (* touching at a shared endpoint *)
+  seg_class (0,0) (4,0) (2,0) (2,3) = SegPoint false (mkq 2 0 1) /\        (* T-junction *)
+  seg_class (0,0) (4,4) (2,2) (6,6) = SegCollinear (2,2) (4,4) /\          (* collinear overlap *)
+  seg_class (0,0) (2,2) (2,2) (4,4) = SegPoint false (mkq 2 2 1) /\        (* collinear, meeting in one endpoint *)
+  seg_class (0,0) (1,1) (3,3) (4,4) = SegNone /\                           (* collinear, disjoint *)
+  seg_class (0,0) (3,1) (0,1) (3,0) = SegPoint true (mkq 9 3 6).           (* crossing at (3/2, 1/2) *)
+Proof. vm_compute. repeat split. Qed.
+Example ex_orient : orient (0,0) (33554432, 33554431) (33554431, 33554430) = -1 /\ orient (0,0) (4,4) (2,2) = 0.
+Proof. vm_compute. split; reflexivity. Qed.
+Example ex_hole : locate_polygon (2,2) [(0,0);(10,0);(10,10);(0,10);(0,0)] [[(1,1);(3,1);(3,3);(1,3);(1,1)]] = Exterior /\
+                  locate_polygon (3,2) [(0,0);(10,0);(10,10);(0,10);(0,0)] [[(1,1);(3,1);(3,3);(1,3);(1,1)]] = Boundary /\
+                  locate_segs (5,5) (polygon_segs [(0,0);(10,0);(10,10);(0,10);(0,0)] [[(1,1);(3,1);(3,3);(1,3);(1,1)]]) = Interior.
+Proof. vm_compute. repeat split. Qed.
+Example ex_ccw : is_ccw sq = true /\ ring_ccw sq = true /\ is_ccw (rev sq) = false /\ area2 sq = 32.
+Proof. vm_compute. repeat split. Qed.
